@@ -403,11 +403,16 @@ func (ty *ArrayType) Assignable(other ExprType) bool {
 func (ty *ArrayType) Merge(other ExprType) ExprType {
 	switch other := other.(type) {
 	case *ArrayType:
-		if _, ok := ty.Elem.(AnyType); ok {
-			return ty
-		}
-		if _, ok := other.Elem.(AnyType); ok {
-			return other
+		_, l := ty.Elem.(AnyType)
+		_, r := other.Elem.(AnyType)
+		if l || r {
+			// array<any> absorbs the other array type. The result can be a receiver of property
+			// dereference when one of the two arrays was derived from object filtering. The result
+			// must not depend on which of them has the unknown element type.
+			return &ArrayType{
+				Elem:  AnyType{},
+				Deref: ty.Deref || other.Deref,
+			}
 		}
 		return &ArrayType{
 			Elem:  ty.Elem.Merge(other.Elem),
